@@ -114,7 +114,8 @@ def spec_orfs(codes, basic, ini, using, minlen, strands):
 
 
 import re
-_LINE = {k: re.compile(rb"^\s*" + pat + rb"\s*=\s*(\S+)\s*$") for k, pat in
+_WS = rb"[ \t\n\r\f]"          # the class \s of esl_regexp.c (no vertical tab)
+_LINE = {k: re.compile(rb"^" + _WS + rb"*" + pat + _WS + rb"*=" + _WS + rb"*([^ \t\n\r\f]+)" + _WS + rb"*\Z") for k, pat in
          (("aas", rb"[Aa][Aa]s"), ("starts", rb"[Ss]tarts"), ("b1", rb"[Bb]ase1"), ("b2", rb"[Bb]ase2"), ("b3", rb"[Bb]ase3"))}
 
 
@@ -162,7 +163,7 @@ class C17(Prop):
         "tables_pinned", "table_ids", "no_initiator_stop", "read_write_roundtrip", "rna_objects_ok", "expand_is_iupac", "translation_spec", "translation_shared",
         "initiator_spec", "initiator_settings", "window_split_invariant", "orf_stream_eq_spec", "orf_frame_declarative", "orf_numbering_and_order", "builtin_tables_ok",
         "standard_code_by_amino_acid", "tables_differ_as_documented", "read_never_faults", "read_never_faults_hyps", "decode_digicodon_bounds", "decode_digicodon_inverse",
-        "compare_spec", "process_orf_spec")]
+        "compare_spec", "process_orf_spec", "translation_out_of_alphabet_faults")]
     claimed = True
     technique = ("Lean 4 proof: built-in tables regenerated from the tree = hand-pinned NCBI tables by `decide`; general theorems (any table, any "
                  "degeneracy matrix) that the triple loop computes the shared amino acid / all-initiators; ORF machine modelled and tied by exact "
@@ -564,8 +565,11 @@ class C17(Prop):
                 if toks[0] != "ok": return Failure("monitor", "orfs answered %r" % l[:80])
                 got = []
                 for t in toks[2:]:
-                    nm, fr, st, en, ln, aa = t.split(":")
+                    nm, fr, st, en, ln, aa, desc = t.split(":")
                     got.append((nm, int(fr), int(st), int(en), int(ln), list(unhex(aa))))
+                    wd = "source=seq coords=%s..%s length=%s frame=%s desc=a desc" % (st, en, ln, fr)
+                    if unhex(desc).decode("latin1") != wd:
+                        return Failure("monitor", "ORF %s: description line %r, expected %r" % (nm, unhex(desc)[:80], wd))
                 wantf = [("orf%d" % (i + 1), f, s, e, len(aa), aa) for i, (f, s, e, aa) in enumerate(want)]
                 if got != wantf:
                     i = next((k for k in range(min(len(got), len(wantf))) if got[k] != wantf[k]), min(len(got), len(wantf)))
